@@ -295,9 +295,11 @@ def build_consolidate(fns):
     wr = g.blocks_calling(r"MDBShardFile::write_out_from_reader")
     push = [b for b in g.blocks_calling(r"Vec::<(std::sync::)?Arc<(\w+::)*MDBShardFile>>::push$")]
     un = g.blocks_calling(r"shard_set_union")
-    if not (rm and ins and con and wr and push and un):
+    if not (rm and ins and wr and push and un):
         raise LookupError("consolidation shape not recognised (%s)" % [rm, ins, con, wr, push, un])
     sc = smt.Script("c10_consolidation_guard")
+    if not con:
+        sc.query("a shard is deleted only after the set of all shards handed back so far was consulted for it", ["true"])
     modeb.no_path_query(g, sc, "the merged shard's hash is in the guard set before any input shard is deleted", modeb.after(g, wr), rm, ins)
     modeb.no_path_query(g, sc, "a shard is deleted only after the guard set was consulted for it", [g.entry], rm, con)
     hit = modeb.bool_branch_edges(g, r"HashSet::<(\w+::)*DataHash>::contains", True)
